@@ -161,9 +161,20 @@ def main(argv):
     nproc = int(os.environ.get("VF_PROCS", nproc))
     results = []
     if tasks:
+        # Hard stop so that a non-terminating call in the code under test cannot stall the check for ever. It is far above
+        # any normal run time (soft budgets end shards long before); hitting it is reported as a harness error, not as a
+        # violation (a wall clock is not a correctness oracle).
+        hard_limit = float(os.environ.get("VF_HARD_LIMIT", 1800 if tier == "quick" else 4 * 3600))
+        deadline = time.time() + hard_limit
         with ctx.Pool(nproc, maxtasksperchild=1) as pool:
-            for r in pool.imap_unordered(_shard, tasks):
-                results.append(r)
+            it = pool.imap_unordered(_shard, tasks)
+            for _ in range(len(tasks)):
+                try:
+                    results.append(it.next(timeout=max(1.0, deadline - time.time())))
+                except multiprocessing.TimeoutError:
+                    errors.append(f"shards still running after {hard_limit:.0f} s were killed (inconclusive)")
+                    pool.terminate()
+                    break
 
     # --- merge -----------------------------------------------------------------------------------
     evaluations = 0
